@@ -315,7 +315,13 @@ pub fn run(tier: Tier) -> Run {
                 ops.insert(pos, o.clone());
                 let mut inst = dr::Instruction::new(spirv::Op::Nop, Some(3), Some(4), ops);
                 let before = inst.assemble();
-                *inst.operands[pos].id_ref_any_mut().unwrap() = 0xABCD_0123;
+                match inst.operands[pos].id_ref_any_mut() {
+                    Some(slot) => *slot = 0xABCD_0123,
+                    None => {
+                        run.add(viol(format!("C17:{}:id-rewrite", k), format!("operand {} reports an id through id_ref_any() but id_ref_any_mut() gives no access to it", pos), json!({"kind": "c17-id", "variant": k})));
+                        continue;
+                    }
+                }
                 let after = inst.assemble();
                 let diff: Vec<usize> = (0..before.len().max(after.len())).filter(|&i| before.get(i) != after.get(i)).collect();
                 let want_idx = 3 + [0usize, 1, 3][pos];
